@@ -208,6 +208,9 @@ BREAKING = [
     ('C19', 'sc3/synth/envelope.py', "return cls([0, level, 0], [attack_time, release_time], curve)", "return cls([0, level, 0], [release_time, attack_time], curve)", 'Env.perc: attack and release exchanged'),
     ('C19', 'sc3/synth/envelope.py', "[attack_time, decay_time, release_time], curve, 2)", "[attack_time, decay_time, release_time], curve, 1)", 'Env.adsr: release node one early'),
     ('C19', 'sc3/synth/envelope.py', "release_level = bi.dbamp(-100) if curve_no == 2 else 0", "release_level = bi.dbamp(-100) if curve_no == 3 else 0", 'Env.cutoff: exponential release aimed at zero'),
+    ('C08', 'sc3/base/clock.py', "        if self._drift:\n            from_time = _libsc3.main.elapsed_time()", "        if not self._drift:\n            from_time = _libsc3.main.elapsed_time()", 'AppClock scheduler re-schedules from its own time instead of the physical present'),
+    ('C08', 'sc3/base/clock.py', "            while self._seconds <= value:\n                self._expired.append(self.queue.pop())", "            while True:\n                self._expired.append(self.queue.pop())", 'AppClock scheduler takes entries that are not due yet'),
+    ('C08', 'sc3/base/clock.py', "                self._sched_add(delta, item)\n        except stm.StopStream:\n            pass", "                self._sched_add(delta, item)\n        except stm.StopStream:\n            raise", 'StopStream of a task escapes the AppClock scheduler'),
 ]
 
 
